@@ -47,6 +47,13 @@ for _mn in (1, 2, 3):
 for _d in (1, 2, 3):
     for _bh in (False, True):
         SETTINGS.append({'min': None, 'max': None, 'depth': _d, 'bh': _bh})
+# Depth 0: no division is forced (min) / every division is ignored (max),
+# the latter leaving the whole section.
+for _bh in (False, True):
+    SETTINGS.append({'min': 0, 'max': None, 'depth': None, 'bh': _bh})
+    SETTINGS.append({'min': 0, 'max': 0, 'depth': None, 'bh': _bh})
+    SETTINGS.append({'min': 0, 'max': 1, 'depth': None, 'bh': _bh})
+    SETTINGS.append({'min': None, 'max': None, 'depth': 0, 'bh': _bh})
 ROTATING = [SETTINGS[i] for i in (0, 3, 8, 11, 14, 20)]
 
 SYM = {'N': 'N½', 'S': 'S½', 'E': 'E½', 'W': 'W½', 'NE': 'NE¼', 'NW': 'NW¼',
